@@ -41,14 +41,14 @@ func VerifC16QueueTick() {
 	}
 	vAssert("tx-at-queue-tick-is-linear-scan", got == want)
 	// index getters
-	idx := vInt(-1, 5)
+	idx := vInt(-1, 6)
 	tx := c.Tx(idx)
 	vAssert("tx-bounds", (tx != nil) == (idx >= 0 && idx < l))
 }
 
 // VerifC16MachTime: TxAtMachTime on non-decreasing time sums.
 func VerifC16MachTime() {
-	l := vInt(0, 4)
+	l := vInt(0, 5)
 	c := &Client{Exportable: &Exportable{}}
 	var prev uint64
 	for i := 0; i < l; i++ {
@@ -61,17 +61,24 @@ func VerifC16MachTime() {
 	vReach("machtime")
 	want := 0
 	found := false
+	first := -1
 	for i := 0; i < l; i++ {
 		if c.MsgTxsParsed[i].TimeSum == sum {
 			found = true
+			if first < 0 {
+				first = i
+			}
 		}
 	}
 	if found {
 		vAssert("tx-at-mach-time-finds-a-match", got >= 0 && got < l && c.MsgTxsParsed[got].TimeSum == sum)
+		// "the transition a linear scan would": the first of a run of transitions with the same sum (queued /
+		// canceled / check transitions do not move the machine time)
+		vAssert("tx-at-mach-time-is-the-linear-scan-result", got == first)
 	} else {
 		vAssert("tx-at-mach-time-default", got == want)
 	}
-	idx := vInt(-1, 5)
+	idx := vInt(-1, 6)
 	vAssert("txparsed-bounds", (c.TxParsed(idx) != nil) == (idx >= 0 && idx < l))
 }
 
